@@ -1,89 +1,16 @@
-"""Normalised source text (ast.unparse) of the fragments of data_io.py / base.py the C18 hand model
-was written against.  Recorded with `python -m translator.tsformat /repo --record`; re-record only after
-re-validating the model (coq/C18/Model.v) against the new text."""
+"""Pins of the fragments of data_io.py / base.py the C18 hand model was written against: the sha256 of the
+path normal form (translator/pathnorm_c18.py) for whole functions (`nf.*`), normalised source text (ast.unparse)
+for the branches of the .ts parser loop.  Recorded with `python -m translator.tsformat /repo --record`;
+re-record only after re-validating the model (coq/C18/Model.v) against the new source."""
 PINS = {
-    'arff.body':
-        'instance_list = []\n'
-        'class_val_list = []\n'
-        'data_started = False\n'
-        'is_multi_variate = False\n'
-        'is_first_case = True\n'
-        "with open(full_file_path_and_name, 'r') as f:\n"
-        '    for line in f:\n'
-        '        if line.strip():\n'
-        "            if is_multi_variate is False and '@attribute' in line.lower() and ('relational' in line.lower()):\n"
-        '                is_multi_variate = True\n'
-        "            if '@data' in line.lower():\n"
-        '                data_started = True\n'
-        '                continue\n'
-        '            if data_started:\n'
-        "                line = line.replace('?', replace_missing_vals_with)\n"
-        '                if is_multi_variate:\n'
-        '                    if has_class_labels:\n'
-        '                        line, class_val = line.split("\',")\n'
-        '                        class_val_list.append(class_val.strip())\n'
-        "                    dimensions = line.split('\\\\n')\n"
-        '                    dimensions[0] = dimensions[0].replace("\'", \'\')\n'
-        '                    if is_first_case:\n'
-        '                        for _d in range(len(dimensions)):\n'
-        '                            instance_list.append([])\n'
-        '                        is_first_case = False\n'
-        '                    for dim in range(len(dimensions)):\n'
-        "                        instance_list[dim].append(pd.Series([float(i) for i in dimensions[dim].split(',')]))\n"
-        '                else:\n'
-        '                    if is_first_case:\n'
-        '                        instance_list.append([])\n'
-        '                        is_first_case = False\n'
-        "                    line_parts = line.split(',')\n"
-        '                    if has_class_labels:\n'
-        '                        instance_list[0].append(pd.Series([float(i) for i in line_parts[:len(line_parts) - 1]]))\n'
-        '                        class_val_list.append(line_parts[-1].strip())\n'
-        '                    else:\n'
-        '                        instance_list[0].append(pd.Series([float(i) for i in line_parts[:len(line_parts)]]))\n'
-        'x_data = pd.DataFrame(dtype=np.float32)\n'
-        'for dim in range(len(instance_list)):\n'
-        "    x_data['dim_' + str(dim)] = instance_list[dim]\n"
-        'if has_class_labels:\n'
-        '    if return_separate_X_and_y:\n'
-        '        return (x_data, np.asarray(class_val_list))\n'
-        '    else:\n'
-        "        x_data['class_vals'] = pd.Series(class_val_list)\n"
-        'return x_data',
-    'load_dataset.body':
-        'if extract_path is not None:\n'
-        '    local_module = os.path.dirname(extract_path)\n'
-        '    local_dirname = extract_path\n'
-        'else:\n'
-        '    local_module = MODULE\n'
-        '    local_dirname = DIRNAME\n'
-        'if not os.path.exists(os.path.join(local_module, local_dirname)):\n'
-        '    os.makedirs(os.path.join(local_module, local_dirname))\n'
-        'if name not in _list_downloaded_datasets(extract_path):\n'
-        "    url = 'http://timeseriesclassification.com/Downloads/%s.zip' % name\n"
-        '    try:\n'
-        '        _download_and_extract(url, extract_path)\n'
-        '    except zipfile.BadZipFile as e:\n'
-        "        raise ValueError('Invalid dataset name. Please make sure the dataset is available on http://timeseriesclassification.com/.') from e\n"
-        "if split in ('train', 'test'):\n"
-        "    fname = name + '_' + split.upper() + '.ts'\n"
-        '    abspath = os.path.join(local_module, local_dirname, name, fname)\n'
-        '    X, y = load_from_tsfile_to_dataframe(abspath)\n'
-        'elif split is None:\n'
-        "    X = pd.DataFrame(dtype='object')\n"
-        "    y = pd.Series(dtype='object')\n"
-        "    for split in ('train', 'test'):\n"
-        "        fname = name + '_' + split.upper() + '.ts'\n"
-        '        abspath = os.path.join(local_module, local_dirname, name, fname)\n'
-        '        result = load_from_tsfile_to_dataframe(abspath)\n'
-        '        X = pd.concat([X, pd.DataFrame(result[0])])\n'
-        '        y = pd.concat([y, pd.Series(result[1])])\n'
-        'else:\n'
-        "    raise ValueError('Invalid `split` value')\n"
-        'if return_X_y:\n'
-        '    return (X, y)\n'
-        'else:\n'
-        "    X['class_val'] = pd.Series(y)\n"
-        '    return X',
+    'nf._load_dataset':
+        'sha256:451221ed92b5559b07a7711a8761ca1ad1c2efbd82a167ec723be4f9e786817e',
+    'nf.load_from_arff_to_dataframe':
+        'sha256:a5949f745cce58069aff893b9f30ccef6c0c2df7165042cc6feb70ce0d43e912',
+    'nf.load_from_ucr_tsv_to_dataframe':
+        'sha256:171895c2a809d603e8f74b6514ec1cabd6986d657133c1a54e49039982c32550',
+    'nf.write_dataframe_to_tsfile':
+        'sha256:dd763613d12d991c35f66b4f6134d863d010fd37fcc183400d9fb1dc325f5699',
     'parser.branch[@classlabel]':
         'if data_started:\n'
         "    raise TsFileParseException('metadata must come before data')\n"
@@ -214,44 +141,4 @@ PINS = {
         "        instance_list[dim].append(pd.Series(dtype='object'))\n"
         'if class_labels:\n'
         '    class_val_list.append(dimensions[num_dimensions].strip())',
-    'tsv.body':
-        "df = pd.read_csv(full_file_path_and_name, sep='\\t', header=None)\n"
-        'y = df.pop(0).values\n'
-        'df.columns -= 1\n'
-        'X = pd.DataFrame()\n'
-        "X['dim_0'] = [pd.Series(df.iloc[x, :]) for x in range(len(df))]\n"
-        'if return_separate_X_and_y is True:\n'
-        '    return (X, y)\n'
-        "X['class_val'] = y\n"
-        'return X',
-    'writer.case_loop':
-        'for case, value in itertools.zip_longest(data.iterrows(), class_value_list):\n'
-        '    for dimension in case[1:]:\n'
-        "        series = dimension[0].to_string(index=False, header=False, na_rep=missing_values).split('\\n')\n"
-        "        series = ','.join((obsv for obsv in series))\n"
-        '        file.write(str(series))\n'
-        '        if not univariate:\n'
-        "            file.write(':')\n"
-        '    if value is not None:\n'
-        "        file.write(f':{value}')\n"
-        "    file.write('\\n')",
-    'writer.comment_block':
-        'if comment:\n'
-        "    file.write('\\n# '.join(textwrap.wrap('# ' + comment)))\n"
-        "    file.write('\\n')",
-    'writer.prelude':
-        'if class_value_list is None:\n'
-        '    class_value_list = []\n'
-        'if not isinstance(data, pd.DataFrame):\n'
-        "    raise ValueError('Data provided must be a DataFrame')\n"
-        'if len(data.index) != len(class_value_list) and len(class_value_list) > 0:\n'
-        "    raise IndexError('The number of cases is not the same as the number of given class values')\n"
-        'if equal_length and series_length == -1:\n'
-        "    raise ValueError('Please specify the series length for equal length time series data.')\n"
-        "dirt = f'{str(path)}/{str(problem_name)}/'\n"
-        'try:\n'
-        '    os.makedirs(dirt)\n'
-        'except os.error:\n'
-        '    pass\n'
-        "file = open(f'{dirt}{str(problem_name)}_transform.ts', 'w')",
 }
